@@ -125,6 +125,10 @@ def _remote_for(irset: dict, cache: dict):
     return cache[key]
 
 
+class _Minutes(int):
+    """An int subclass (what enum members, numpy-like scalars and configuration objects look like to the library)."""
+
+
 def _make_call(api, op: str, a: dict, remotes: dict | None = None):
     from aioswitcher.api import Command
     from aioswitcher.api.remotes import SwitcherBreezeRemote
@@ -132,9 +136,21 @@ def _make_call(api, op: str, a: dict, remotes: dict | None = None):
     from aioswitcher.schedule import Days
     if op == "control_device":
         minutes = int(a["minutes_s"]) if "minutes_s" in a else a["minutes"]
+        if minutes % 5 == 1:
+            minutes = _Minutes(minutes)                    # an int is an int, whatever its class
+        if minutes == 0 and a["on"] == 0:
+            return api.control_device(Command.OFF)         # the timer argument is optional
         return api.control_device(Command.ON if a["on"] else Command.OFF, minutes)
     if op == "set_auto_shutdown":
-        return api.set_auto_shutdown(timedelta(seconds=a["secs"]))
+        secs = a["secs"]
+        v = (secs // 60) % 4                               # the same duration, built the ways callers build it
+        if v == 1 and secs >= 0:
+            return api.set_auto_shutdown(timedelta(hours=secs // 3600, minutes=(secs % 3600) // 60, seconds=secs % 60))
+        if v == 2 and secs >= 0:
+            return api.set_auto_shutdown(timedelta(minutes=secs // 60, seconds=secs % 60, microseconds=0))
+        if v == 3 and secs >= 0:
+            return api.set_auto_shutdown(timedelta(milliseconds=1000 * secs))
+        return api.set_auto_shutdown(timedelta(seconds=secs))
     if op == "set_device_name":
         return api.set_device_name("".join(chr(c) for c in a["cps"]))
     if op == "delete_schedule":
@@ -143,6 +159,8 @@ def _make_call(api, op: str, a: dict, remotes: dict | None = None):
         D = sorted(Days, key=lambda d: d.weekday)
         days = [D[x] for x in a["days"]]
         arg = set(days) if a.get("form", "set") == "set" else (list(days) if a["form"] == "list" else tuple(days))
+        if isinstance(arg, set) and len(days) % 3 == 2:
+            arg = frozenset(days)
         return api.create_schedule(a["start_s"], a["end_s"], arg)
     if op == "set_position":
         return api.set_position(a["pos"])
